@@ -13,6 +13,16 @@ pub mod c18;
 pub mod schedprops;
 pub mod seqprops;
 
+/// Adds the units of a neighbouring property's check (skipping names that are already there): a change that is
+/// filed under one property often shows its symptom in the terms of a neighbouring one.
+fn share(v: &mut Vec<Unit>, more: Vec<Unit>) {
+    for u in more {
+        if !v.iter().any(|x| x.name == u.name) {
+            v.push(u);
+        }
+    }
+}
+
 pub fn units(id: &str, tier: &str) -> Option<Vec<Unit>> {
     let thorough = tier == "thorough";
     Some(match id {
@@ -21,12 +31,19 @@ pub fn units(id: &str, tier: &str) -> Option<Vec<Unit>> {
         "C03" => { let mut v = c03::units(thorough); v.extend(seqprops::core_units(thorough)); v.extend(seqprops::stream_units(thorough)); v.push(seqprops::reincarnation_unit(thorough)); v }
         "C04" => { let mut v = seqprops::c04(thorough); v.extend(seqprops::core_units(thorough)); v }
         "C05" => { let mut v = seqprops::c05(thorough); v.extend(seqprops::core_units(thorough)); v.push(schedprops::ack_at_deadline_unit(thorough)); v.push(c03::stream_control_order_unit(thorough)); v }
-        "C06" => { let mut v = c06::units(thorough); v.extend(seqprops::stream_units(thorough)); v.push(c15::limits_unit(thorough)); v }
-        "C07" => { let mut v = c07::units(thorough); v.push(c15::blocking_unit(thorough)); v }
+        "C06" => {
+            let mut v = c06::units(thorough);
+            v.extend(seqprops::stream_units(thorough));
+            v.push(c15::limits_unit(thorough));
+            share(&mut v, vec![c15::blocking_unit(thorough)]);
+            share(&mut v, c16::units(thorough).into_iter().filter(|u| u.name == "crash/next-to-a-waiting-consumer").collect());
+            v
+        }
+        "C07" => { let mut v = c07::units(thorough); v.push(c15::blocking_unit(thorough)); share(&mut v, c12::units(thorough)); v }
         "C08" => { let mut v = seqprops::c08(thorough); v.extend(schedprops::c08_sched(thorough)); v }
         "C09" => c09::units(thorough),
-        "C10" => { let mut v = seqprops::c10(thorough); v.extend(schedprops::c10_sched(thorough)); v }
-        "C11" => { let mut v = seqprops::c11(thorough); v.extend(schedprops::c11_sched(thorough)); v.push(c14::interference_unit()); v }
+        "C10" => { let mut v = seqprops::c10(thorough); v.extend(schedprops::c10_sched(thorough)); share(&mut v, schedprops::c11_sched(thorough)); v }
+        "C11" => { let mut v = seqprops::c11(thorough); v.extend(schedprops::c11_sched(thorough)); v.push(c14::interference_unit()); share(&mut v, schedprops::c10_sched(thorough)); v }
         "C12" => {
             // the deletion behind a busy mailbox (shared with C07): nothing that races with the deletion may hang
             let mut v = c12::units(thorough);
@@ -35,8 +52,13 @@ pub fn units(id: &str, tier: &str) -> Option<Vec<Unit>> {
         }
         "C13" => c13::units(thorough),
         "C14" => c14::units(thorough),
-        "C15" => { let mut v = c15::units(thorough); v.extend(seqprops::stream_units(thorough)); v.extend(c06::cancel_units_small(thorough)); v }
-        "C16" => c16::units(thorough),
+        "C15" => { let mut v = c15::units(thorough); v.extend(seqprops::stream_units(thorough)); v.extend(c06::cancel_units_small(thorough)); share(&mut v, c06::units(thorough)); v }
+        "C16" => {
+            let mut v = c16::units(thorough);
+            share(&mut v, schedprops::c10_sched(thorough).into_iter().filter(|u| u.name.contains("abandoned")).collect());
+            share(&mut v, schedprops::c11_sched(thorough).into_iter().filter(|u| u.name.contains("abandoned")).collect());
+            v
+        }
         "C17" => c17::units(thorough),
         "C18" => c18::units(thorough),
         _ => return None,
